@@ -184,6 +184,17 @@ where
         ensure_eq!(&f[..], rest, format!("{site}/advanced_fold"), "fold() {what}");
         let z = no_panic(&format!("{site}/advanced_nth_panic"), &what, || adv().nth(0).map(conv))?;
         ensure_eq!(z.as_ref(), rest.first(), format!("{site}/advanced_nth"), "nth(0) {what}");
+        // skipping astronomically far (the index arithmetic may wrap) exhausts the iterator for good
+        for far in [usize::MAX, usize::MAX - k, usize::MAX - k.saturating_sub(1), usize::MAX / 2 + 1] {
+            let (got, after, left) = no_panic(&format!("{site}/advanced_far_nth_panic"), &format!("nth({far}) {what}"), || {
+                let mut it = adv();
+                let g = it.nth(far).map(conv);
+                let a = it.next().map(conv);
+                (g, a, it.count())
+            })?;
+            ensure!(got.is_none(), format!("{site}/advanced_far_nth"), "nth({far}) {what} returned {got:?}");
+            ensure!(after.is_none() && left == 0, format!("{site}/advanced_far_nth_then"), "after nth({far}) {what} the iterator still yields {after:?} and {left} more");
+        }
         let (lo, hi) = adv().size_hint();
         ensure!(lo <= rest.len() && hi.map_or(true, |h| h >= rest.len()), format!("{site}/advanced_size_hint"), "size_hint() {what} = ({lo}, {hi:?}) but {} items remain", rest.len());
         // the same through skip(k): Skip forwards count/last/fold to the inner iterator after one nth
